@@ -197,10 +197,10 @@ func genC01(tier string) []Scenario {
 					sp := &spec{id: "n", kind: kind, n: n, fb: fb}
 					name := fmt.Sprintf("lifecycle kind=%s N=%d fallback=%v place=%s", kindNames[kind], n, fb, placeName(place))
 					out = append(out, lifecycleScenario(name, sp, place, fullMenu(pv)))
-					if n <= 2 && place != placeOnlyInFlow {
+					if (n <= 2 || (tier == "thorough" && n <= 5)) && place != placeOnlyInFlow {
 						out = append(out, lifecycleScenarioRuns(name+" runs=2(same node object)", sp, place, fullMenu(pv[:2]), 2))
 					}
-					if n <= 3 && place == placeDirect {
+					if (n <= 3 || (tier == "thorough" && n <= 6)) && (place == placeDirect || tier == "thorough") {
 						out = append(out, lifecycleScenarioOpt(name+" cancel-inside-any-callback runs=2", sp, place, fullMenu(pv[:1]), 2, true))
 					}
 				}
